@@ -26,3 +26,38 @@ theorem drawn_model (P : _root_.C19.Params) (dom : List Int) (h : _root_.C19.use
 
 example : enforceRep true 10 10 = true ∧ enforceRep true 11 10 = false ∧ enforceRep false 3 10 = false := by decide
 end Src.C19
+
+namespace Src.C19
+open Gen.Src.C19
+
+/-- gap filling runs exactly while the running column index is below the declared index (`C19.place`: `gap = f - ix`) -/
+theorem gap_single_model (ix j : Nat) : gapBeforeSingle (ix : Int) (j : Int) = decide (0 < j - ix) := by
+  unfold gapBeforeSingle; bridge
+theorem gap_listed_model (ix j : Nat) : gapBeforeListed (ix : Int) (j : Int) = decide (0 < j - ix) := by
+  unfold gapBeforeListed; bridge
+/-- the tail is filled with default features iff columns remain (`List.replicate (nF - ix) dflt`) -/
+theorem tail_needed_model (ix nF : Nat) : tailNeeded (ix : Int) (nF : Int) = decide (0 < nF - ix) := by
+  unfold tailNeeded; bridge
+
+/-- the naive generator: needle column 30, values drawn from [10, 100), label threshold 40 -/
+theorem needle_column_value : needleColumn = 30 := by decide
+theorem draw_range : drawLow = 10 ∧ drawHigh = 100 := by decide
+/-- `target[target < 40] = 0` then `target[target > 39] = 1` is the model's `maskGt39 ∘ maskLt40` and equals `label` -/
+theorem masks_model (col : List Int) :
+    _root_.C19.maskGt39 (_root_.C19.maskLt40 col)
+      = (col.map fun v => if lowLabel v then 0 else v).map fun v => if highLabel v then 1 else v := by
+  unfold _root_.C19.maskGt39 _root_.C19.maskLt40 lowLabel highLabel
+  simp
+
+theorem label_of_masks (v : Int) (h : 10 ≤ v) :
+    (let a := if lowLabel v then 0 else v; if highLabel a then (1 : Int) else a) = _root_.C19.label v := by
+  unfold lowLabel highLabel _root_.C19.label
+  by_cases h1 : v < 40
+  · have : ¬ (40 ≤ v) := by omega
+    simp [h1, this]
+  · have h2 : 40 ≤ v := by omega
+    have h3 : v > 39 := by omega
+    simp [h1, h2, h3]
+
+example : lowLabel 39 = true ∧ lowLabel 40 = false ∧ highLabel 40 = true ∧ highLabel 39 = false := by decide
+end Src.C19
